@@ -31,6 +31,9 @@ DOCS = [
     ("variable-argument", "subscription S($n: Int = 2) { t: tick(n: $n) { id a } }", {"n": 5}),
     ("variable-default", "subscription S($n: Int = 2) { t: tick(n: $n) { id a } }", {}),
     ("scalar-root", "subscription S { count }", None),
+    ("three-fragment-levels", "subscription S { ...F1 } fragment F1 on Subscription { ...F2 } fragment F2 on Subscription { ... on Subscription { tick { id a } } }", None),
+    ("four-named-fragments", "subscription S($n: Int = 2) { ...G1 } fragment G1 on Subscription { ...G2 } fragment G2 on Subscription { ...G3 } "
+                             "fragment G3 on Subscription { ...G4 } fragment G4 on Subscription { t: tick(n: $n) { id } }", {}),
 ]
 REFUSED = [
     ("unknown-field", "subscription { tick { zz } }", None),
@@ -90,6 +93,15 @@ def judge_stream(schema, located, op, variables, scn, events, responses):
     return None
 
 
+def root_field_node(schema, located, variables):
+    """the (single) root field node of the subscription, wherever the document puts it (fragments, inline fragments)"""
+    vals, _ = C.coerce_variables(schema, located.operations[0], variables)
+    ex = X.Executor(schema, located, Scenario(root=None))
+    ex.vars = vals
+    groups = ex.collect(schema.subscription, located.operations[0].sel, {}, set())
+    return list(groups.values())[0][0]
+
+
 class _NoneRoot:
     """E5 treats root=None as 'use scn.root'; a None payload is modelled by an object without attributes"""
 
@@ -136,7 +148,7 @@ def run_shard(item):
                         if len(starts) != 1:
                             clause = "source-started-%d-times" % len(starts)
                         else:
-                            fnode = located.operations[0].sel[0]
+                            fnode = root_field_node(schema, located, variables)
                             vals, bad = C.coerce_variables(schema, located.operations[0], variables)
                             want = C.freeze(C.coerce_arguments(schema, schema.field_def("Subscription", fnode.name).args, fnode.args, vals))
                             if starts[0][2] != want:
